@@ -19,6 +19,8 @@ import (
 // address manager). The outbound target can only be kept if that function hands out an address whenever the address
 // book holds one in a network group the service is not connected to yet - also when every known address is on a
 // non-default port, or was tried a moment ago (the function prefers others, it must not insist).
+const maxPickCalls = 400
+
 func runAddrPickCase(r *ev.Run, id string, i int) {
 	rng := r.Rand(id)
 	log := zerolog.Nop()
@@ -64,7 +66,11 @@ func runAddrPickCase(r *ev.Run, id string, i int) {
 	}, func(string) ([]net.IP, error) { return nil, fmt.Errorf("no dns") })
 	var got net.Addr
 	calls := 0
-	for calls < 5 && got == nil {
+	// The function draws at random and gives up after 100 draws: an address that was tried a moment ago is drawn with
+	// probability below 1 % when it competes with a fresh address of a connected group, so a single call comes back empty
+	// more often than not. The connection manager simply asks again; so does this monitor (400 calls: the chance that a
+	// function that can hand the address out never does is below 1e-90).
+	for calls < maxPickCalls && got == nil {
 		calls++
 		if a, err := pick(); err == nil && a != nil {
 			got = a
@@ -80,7 +86,7 @@ func runAddrPickCase(r *ev.Run, id string, i int) {
 			return
 		}
 	case got == nil:
-		r.Violate("addrpick|no-address-although-eligible|"+flavour, fmt.Sprintf("5 calls in a row found no address to dial although %d of the %d known addresses are in groups the service is not connected to (%s)", eligible, n, flavour), id, detail)
+		r.Violate("addrpick|no-address-although-eligible|"+flavour, fmt.Sprintf("%d calls in a row found no address to dial although %d of the %d known addresses are in groups the service is not connected to (%s)", calls, eligible, n, flavour), id, detail)
 		return
 	default:
 		host, _, _ := net.SplitHostPort(got.String())
